@@ -203,6 +203,13 @@ fn p_boxed<const N: usize>() {
         H.bp = Some(boxed::<N>(&IN.p));
     }
 }
+/// receiver a at N limbs, right-hand side b at ONE limb (its low limb)
+fn p_boxed_narrow_b<const N: usize>() {
+    p_boxed::<N>();
+    unsafe {
+        H.bb = Some(BoxedUint::from_words([IN.b[0]]));
+    }
+}
 fn p_boxed_nz_b<const N: usize>() {
     p_nz_b::<N>();
     p_boxed::<N>();
@@ -505,6 +512,21 @@ pub fn table(thorough: bool) -> Vec<Row> {
     ct!(r; "Uint::to_odd"; s=1; |x| { let o = x.a.to_odd(); oc(N, o.is_some()); });
     ct!(r; "ConstCtOption<Uint>::unwrap_or"; s=2; |x| { ou(0, &x.a.checked_square().unwrap_or(x.b)); });
 
+    // ------------------------------------------------------------------ Checked<Uint>: a failed earlier step must not change what later steps execute
+    ct!(r; "Checked<Uint>*Checked*Checked (by value)"; s=3; |x| {
+        let p = crypto_bigint::Checked::new(x.a) * crypto_bigint::Checked::new(x.b) * crypto_bigint::Checked::new(x.c);
+        och(N, p.0.is_some()); ou(0, &p.0.unwrap_or(U::ZERO));
+    });
+    ct!(r; "Checked<Uint>+Checked-Checked (by value)"; s=3; |x| {
+        let p = crypto_bigint::Checked::new(x.a) + crypto_bigint::Checked::new(x.b) - crypto_bigint::Checked::new(x.c);
+        och(N, p.0.is_some()); ou(0, &p.0.unwrap_or(U::ZERO));
+    });
+    ct!(r; "&Checked<Uint>*&Checked, *=, += (by reference / assigning)"; s=3; |x| {
+        let mut p = &crypto_bigint::Checked::new(x.a) * &crypto_bigint::Checked::new(x.b);
+        p *= crypto_bigint::Checked::new(x.c);
+        p += &crypto_bigint::Checked::new(x.a);
+        och(N, p.0.is_some()); ou(0, &p.0.unwrap_or(U::ZERO));
+    });
     // ------------------------------------------------------------------ Uint: division
     ct!(r; "Uint::div_rem"; s=2; prep=p_nz_b; |x| { let (q, rm) = x.a.div_rem(&NonZero::new(x.b).unwrap()); ou(0, &q); ou(N, &rm); });
     ct!(r; "Uint::rem"; s=2; prep=p_nz_b; |x| { ou(0, &x.a.rem(&NonZero::new(x.b).unwrap())); });
@@ -697,6 +719,16 @@ pub fn table(thorough: bool) -> Vec<Row> {
     bx!(r; "Boxed::add_mod_assign"; s=3; prep=p_boxed_mod_c; |x| { let a = unsafe { H.ba.as_mut().unwrap_unchecked() }; a.add_mod_assign(h!(bb), h!(bc)); ob(0, a); });
     bx!(r; "Boxed::is_one"; s=1; prep=p_boxed; |x| { och(0, h!(ba).is_one()); });
     bx!(r; "Boxed::conditional_wrapping_neg"; s=2; prep=p_boxed; |x| { let v = <BoxedUint as subtle::ConditionallyNegatable>::conditional_negate; let a = unsafe { H.ba.as_mut().unwrap_unchecked() }; v(a, Choice::from((x.b.as_words()[0] & 1) as u8)); ob(0, a); });
+    // mixed precision: a one-limb right-hand side added into / subtracted from a wider receiver (carry must ripple in constant time)
+    row!(r; "Boxed::adc_assign (1-limb rhs)"; n=[2,4,8]; s=2; ks=no_k; pubs=no_pub; heavy=false; vt=false; prep=p_boxed_narrow_b; |x| {
+        let a = unsafe { H.ba.as_mut().unwrap_unchecked() }; let c = a.adc_assign(h!(bb), Limb::ZERO); ob(0, a); sink(N, c.0);
+    });
+    row!(r; "Boxed::sbb_assign (1-limb rhs)"; n=[2,4,8]; s=2; ks=no_k; pubs=no_pub; heavy=false; vt=false; prep=p_boxed_narrow_b; |x| {
+        let a = unsafe { H.ba.as_mut().unwrap_unchecked() }; let c = a.sbb_assign(h!(bb), Limb::ZERO); ob(0, a); sink(N, c.0);
+    });
+    row!(r; "Wrapping<Boxed>+=Boxed (1-limb rhs)"; n=[2,4,8]; s=2; ks=no_k; pubs=no_pub; heavy=false; vt=false; prep=p_boxed_narrow_b; |x| {
+        let mut w = crypto_bigint::Wrapping(h!(ba).clone()); w += crypto_bigint::Wrapping(h!(bb).clone()); ob(0, &w.0);
+    });
     bx!(r; "Boxed::div_rem"; s=2; prep=p_boxed_nz_b; |x| { let (q, rm) = h!(ba).div_rem(h!(bnz)); ob(0, &q); ob(N, &rm); });
     bx!(r; "Boxed::rem"; s=2; prep=p_boxed_nz_b; |x| { ob(0, &h!(ba).rem(h!(bnz))); });
     bx!(r; "Boxed::checked_div"; s=2; prep=p_boxed; |x| { ocob(0, h!(ba).checked_div(h!(bb)), N); });
